@@ -167,6 +167,9 @@ structure Roots where
   t1 : Nat → Rat
   t2 : Nat → Rat
   s5 : Nat → Rat
+  /-- relative rounding allowance on `std ≤ smax` read from the source by the harness: `0` for the pinned code
+  (no allowance); a repaired version may accept `std ≤ smax*(1+slack)` and use `smax` instead -/
+  slack : Rat := 0
 
 def x5At (sl : Rat) (k : Nat) : Rat := lvL k * lvL k + sl * sl - lvL k
 
@@ -231,13 +234,14 @@ def minMaxMeanStd (R : Roots) (a b μ σ : Rat) : Except Err PB :=
   if a = b then minMax a b
   else if b < a then .error .Assertion
   else if μ < a ∨ b < μ then .error .Assertion
-  else if σ < 0 ∨ R.smax < σ then .error .Assertion
+  else if σ < 0 ∨ R.smax * (1 + R.slack) < σ then .error .Assertion
   else
+    let σe := if R.smax < σ then R.smax else σ     -- only differs from σ when `slack > 0`
     let ran := b - a
     let ml := (μ - a) / ran
-    let sl := σ / ran
+    let sl := σe / ran
     let mr := (μ - a) / ran
-    let sr := σ / ran
+    let sr := σe / ran
     staircase .elementwise (mmmsLeft R a ran ml sl sr) (mmmsRight R a ran mr sl sr)
 
 /-- `min_max_mean_var(min,max,mean,var) = min_max_mean_std(min,max,mean,np.sqrt(var))` -/
